@@ -581,7 +581,7 @@ class Engine(object):
         return order
 
     # ---- the walker ------------------------------------------------------------------------
-    def walk(self, f, rules, collect=None, path_limit=None, depth=0, on_exit=None):
+    def walk(self, f, rules, collect=None, path_limit=None, depth=0, on_exit=None, seed=None):
         """Explore all paths of f.  rules: list of Rule objects (may be empty).
         collect: list receiving SPaths (summary mode).  Returns False if path_limit exceeded."""
         if path_limit is None:
@@ -589,16 +589,18 @@ class Engine(object):
         saved_tags = self.field_tag
         self.field_tag = {}
         try:
-            return self._walk(f, rules, collect, path_limit, depth, on_exit)
+            return self._walk(f, rules, collect, path_limit, depth, on_exit, seed)
         finally:
             if collect is not None and not rules:
                 self.summary_tags[f.name] = self.field_tag
             self.field_tag = saved_tags
 
-    def _walk(self, f, rules, collect, path_limit, depth, on_exit):
+    def _walk(self, f, rules, collect, path_limit, depth, on_exit, seed=None):
         st = State()
         for i, (ty, nm, at) in enumerate(f.params):
             st.env[nm] = atom(('arg', i))
+            if seed and i in seed:
+                st.env[nm] = seed[i]      # an assumption about an argument (path slicing)
         st.rs = tuple(r.init(f, self) for r in rules)
         back, loopbody = self.loop_info(f)
         work = [(f.entry, None, st)]
@@ -1253,11 +1255,24 @@ class Engine(object):
             ev = Ev('call', callee=name, args=args, ins=ins, fn=f, site=site, argtys=ins.argtys)
             # memory written through the destination
             dst = args[0]
-            for addr in list(st.mem.keys()):
-                if addr[2] == dst[2]:
-                    del st.mem[addr]
-                    for at, c in addr[2]:
-                        st.hv[at] = site
+            n = const_of(args[2]) if len(args) > 2 else None
+            if name.startswith('llvm.memset'):
+                n = None
+            if n is not None and 0 < n <= 64 and len(args) > 1:
+                # small aggregate copy (iterators, move_iterator temporaries): copy cell by cell so
+                # that pointers carried inside such objects keep their values
+                src = args[1]
+                vals = []
+                for off in range(0, n, 8 if n % 8 == 0 else (4 if n % 4 == 0 else 1)):
+                    vals.append((off, self.load(st, lin_add(src, L(off)))))
+                for off, v in vals:
+                    st.mem[lin_add(dst, L(off))] = v
+            else:
+                for addr in list(st.mem.keys()):
+                    if addr[2] == dst[2]:
+                        del st.mem[addr]
+                        for at, c in addr[2]:
+                            st.hv[at] = site
             self.emit(st, ev, rules, f)
             return [('normal', st)]
         if name.startswith('llvm.trap'):
